@@ -13,14 +13,16 @@ MAXLINES = {"quick": 160, "thorough": 600}
 
 def fixed_cases_for(tier, styles=(None, "jcl"), step=1):
     out = []
-    for f in corpus.files()[::step]:
+    for i, f in enumerate(corpus.files()[::step]):
         if len(corpus.lines(f)) > MAXLINES[tier]:
             continue
-        for s in styles:
+        for j, s in enumerate(styles):
+            if tier == "quick" and j > 0 and i % 3:
+                continue  # quick: every fixture under the first style, every third one under the others
             out.append({"file": f, "level": 0, "lseed": 0, "style": s, "conf": None})
     # seed-independent re-layouts (one per fixture, level rotating 1..4, layout seed derived from the file name): same cases on every run
     for i, f in enumerate(corpus.files()[::step]):
-        if len(corpus.lines(f)) > MAXLINES[tier]:
+        if len(corpus.lines(f)) > MAXLINES[tier] or (tier == "quick" and i % 2):
             continue
         reps = 1 if tier == "quick" else 3
         for rep in range(reps):
